@@ -203,6 +203,8 @@ class DictObj:
         d.kcls = self.kcls
         if hasattr(self, 'frozen'):
             d.frozen = self.frozen
+        if getattr(self, 'isnum', None) is not None:
+            d.isnum, d.numval = self.isnum, self.numval
         return d
 
 
